@@ -176,4 +176,76 @@ theorem temp_counter_renaming_injective (start : Nat) (sched sched' : List Nat) 
 example : tempName 7 [0, 0, 1, 1] 1 0 = some 9 ∧ tempName 7 [1, 0, 1, 0] 1 0 = some 7 ∧
     renameTo 7 [0, 0, 1, 1] [1, 0, 1, 0] 9 = 7 ∧ renameTo 7 [0, 0, 1, 1] [1, 0, 1, 0] 3 = 3 := by decide
 
+/-! ## Phase boundaries -/
+
+theorem issued_flatten_of_allSynced (ps : List Phase) (H : Nat) (h : allSynced ps = true) :
+    (issued H ps).flatten = List.range' H (total ps) ∧ heapAfter H ps = H + total ps := by
+  induction ps generalizing H with
+  | nil => simp [issued, total, heapAfter]
+  | cons p rest ih =>
+    cases p with
+    | par k s =>
+      simp only [allSynced, Bool.and_eq_true] at h
+      obtain ⟨hs, hr⟩ := h
+      subst hs
+      have := ih (H + k) hr
+      simp only [issued, ↓reduceIte, List.flatten_cons, this.1, total, heapAfter, this.2]
+      constructor
+      · rw [← List.range'_append_1]
+      · omega
+    | seq k =>
+      simp only [allSynced] at h
+      have := ih (H + k) h
+      simp only [issued, List.flatten_cons, this.1, total, heapAfter, this.2]
+      constructor
+      · rw [← List.range'_append_1]
+      · omega
+
+/-- **phases_disjoint**: when every parallel round is followed by `sync_temp_counter` — every
+boundary, including the last one before LIR lowering — no number is issued twice, neither inside a
+phase nor by two different phases, and the heap ends above every number issued. -/
+theorem phases_disjoint (ps : List Phase) (H : Nat) (h : allSynced ps = true) :
+    (issued H ps).flatten.Nodup ∧ ∀ n ∈ (issued H ps).flatten, n < heapAfter H ps := by
+  obtain ⟨h1, h2⟩ := issued_flatten_of_allSynced ps H h
+  rw [h1, h2]
+  refine ⟨List.nodup_range', ?_⟩
+  intro n hn
+  have := List.mem_range'_1.mp hn
+  omega
+
+/-- the pipeline of `optimize_sources` + LIR lowering with the final sync in place -/
+theorem pipeline_disjoint (rounds : List (Nat × Nat)) (last lir H : Nat) :
+    (issued H (pipeline rounds last lir true)).flatten.Nodup := by
+  apply (phases_disjoint _ H _).1
+  unfold pipeline
+  induction rounds with
+  | nil => simp [allSynced]
+  | cons r rs ih => simpa [allSynced] using ih
+
+example : issued 100 (pipeline [(2, 1), (0, 3)] 4 6 true) =
+    [[100, 101], [102], [], [103, 104, 105], [106, 107, 108, 109], [110, 111, 112, 113, 114, 115]] := by decide
+
+/-- **dropped_sync_counterexample** (class of seeded fault C12e): without the sync after the last
+parallel round, LIR lowering starts again at the first number of that round — the same number is
+issued by two phases (full statement "`issued` is duplicate-free for every sync discipline" is false). -/
+theorem dropped_sync_counterexample :
+    ∃ (rounds : List (Nat × Nat)) (last lir H : Nat),
+      ¬ (issued H (pipeline rounds last lir false)).flatten.Nodup :=
+  ⟨[], 2, 1, 7, by decide⟩
+
+/-- **dropped_sync_partial**: the sync may only be dropped when nothing is issued afterwards (what
+the "tidy-up" assumed — but LIR lowering does issue names). -/
+theorem dropped_sync_partial (rounds : List (Nat × Nat)) (last H : Nat) :
+    (issued H (pipeline rounds last 0 false)).flatten.Nodup := by
+  have h1 : ∀ (rs : List (Nat × Nat)) (H : Nat),
+      (issued H (rs.flatMap (fun r => [Phase.par r.1 true, Phase.seq r.2]) ++ [Phase.par last false, Phase.seq 0])).flatten =
+      (issued H (rs.flatMap (fun r => [Phase.par r.1 true, Phase.seq r.2]) ++ [Phase.par last true, Phase.seq 0])).flatten := by
+    intro rs
+    induction rs with
+    | nil => intro H; simp [issued]
+    | cons r rs ih => intro H; simp [issued, ih]
+  unfold pipeline
+  rw [h1]
+  exact pipeline_disjoint rounds last 0 H
+
 end SamVerif.TempCounter
